@@ -487,15 +487,34 @@ def rule_answer_subset(ctx):
     ctx.require(len(use) == 1, "succeedHandshake: websocket_protocol_in_use assignment not found")
     U = use[0]
     F = mf.at(U)
-    # reaching U means: protocol is None or protocol in self.websocket_protocols -> the raising test dominates
-    tests = [n for n in g.stmt_nodes() if n.kind == "test" and "protocol" in norm.mentions_of(n.ast) and "self.websocket_protocols" in norm.mentions_of(n.ast)]
-    ok = len(tests) == 1 and g.always_preceded_by(U, lambda x: x is tests[0])
-    if ok:
-        at = set(norm.atoms(tests[0].ast, True, res))
-        ok = at == {("is", "protocol", ("c", None), False), ("in", "protocol", ("e", "self.websocket_protocols"), False)}
-        tb = [m for m, lab in tests[0].succ if lab and lab[0] == "T"]
-        ok = ok and all(m.kind == "stmt" and isinstance(m.ast, ast.Raise) for m in tb)
-    ctx.ob("server: chosen subprotocol must be None or one the client offered (else raise)", bool(ok), "subprotocol membership check changed", fn.loc())
+    # evaluated (sa.core.tiny) up to the store of the subprotocol in use, over what onConnect() may hand back: None, an offered subprotocol, one that
+    # was not offered -- bare or as the first element of a (protocol, headers) tuple.  Only None / an offered one may reach the store.
+    from ..core.tiny import Tiny, Sym
+    wsp_cls = ctx.program.cls(WSP)
+    consts_ = {s_.targets[0].id: s_.value.value for s_ in wsp_cls.node.body if isinstance(s_, ast.Assign) and len(s_.targets) == 1 and isinstance(s_.targets[0], ast.Name)
+               and isinstance(s_.value, ast.Constant) and isinstance(s_.value.value, int)}
+    probs = []
+    try:
+        for what, res_v, want in (("None", None, "store None"), ("an offered subprotocol", "p1", "store p1"), ("a subprotocol the client did not offer", "px", "raise"),
+                                  ("(offered, headers)", ("p2", {}), "store p2"), ("(not offered, headers)", ("px", {}), "raise"), ("an empty tuple", (), "store None")):
+            env = {"self": Sym("server"), fn.params()[1]: res_v, "self.state": consts_.get("STATE_CONNECTING", 1), "self.websocket_protocols": ["p1", "p2"], "self.log": Sym("log"),
+                   "WebSocketProtocol": Sym("class WebSocketProtocol", **consts_)}
+            env.update({f"WebSocketProtocol.{k_}": v_ for k_, v_ in consts_.items()})
+            t = Tiny(env, default_call=lambda f_, a_, k_=None: Sym(f"<{f_}>"), model_types=True, opaque_globals=True, model_strings=True)
+            body = [x for x in fn.node.body if not (isinstance(x, ast.Expr) and isinstance(x.value, ast.Constant))]
+            r = t.run(body, stop=lambda st_: st_ is U.ast)
+            if r[0] == "stop":
+                v_ = t.ev(U.ast.value)
+                got = f"store {v_}"
+            elif r[0] == "raise":
+                got = "raise"
+            else:
+                got = f"{r[0]} {str(r[1])[:30]}"
+            if got != want:
+                probs.append(f"onConnect() returns {what}: {got}, expected {want}")
+    except AnalysisError as e:
+        raise AnalysisError(f"[C07.5-answer-subset-of-offer] succeedHandshake outside the modelled subset: {e}")
+    ctx.ob("server: chosen subprotocol must be None or one the client offered (else raise) [6 cells]", not probs, "; ".join(probs[:2]), fn.loc())
     ctx.ob("server: the checked value is the one used and announced", norm.text(U.ast.value) == "protocol", "websocket_protocol_in_use not the checked value", fn.loc())
     hdr = [s for s in walk_no_defs(fn.node) if isinstance(s, ast.AugAssign) and "Sec-WebSocket-Protocol" in norm.text(s.value)]
     ctx.ob("server: announced subprotocol is websocket_protocol_in_use", len(hdr) == 1 and "{self.websocket_protocol_in_use}" in norm.text(hdr[0].value), "header value changed", fn.loc())
